@@ -399,6 +399,32 @@ def native_objects_and_boundaries(ck):
     if np.any(outs5[1][0][out_of_range] != 0) or not np.allclose(outs5[1][1][out_of_range], np.cos(np.radians(1.5)), rtol=0, atol=0):
         fails.append({"obligation": "bounded.objects", "clause": "a second call on the same object with a batch of the same size: out-of-range events get exactly 0 PE and the default 1.5 deg angle (nothing of the earlier call)",
                       "input": {"first call altDec": a_first.tolist(), "second call altDec": a_second.tolist()}, "observed": {"numPEs of the second call": outs5[1][0].tolist(), "cos(angle) of the second call": outs5[1][1].tolist()}})
+    # (f) the stage is a function of the altitudes it is GIVEN: the same object first generates decay altitudes (altDec), then is called with
+    # other altitudes of the same length (re-ordered events, altitudes read back from a file) -- which events are simulated follows the argument
+    eas6 = EAS(NssConfig())
+    b6 = rng.uniform(0.05, 0.6, 4)
+    g6 = np.array([1e7, 1e8, 3e7, 1e9])
+    with np.errstate(all="ignore"):
+        gen_alt, _gen_len = eas6.altDec(b6.copy(), np.sqrt(1 - 1 / g6**2), g6.copy(), np.array([0.5, 0.999999, 0.9, 1e-6]))
+    gen_alt = np.asarray(gen_alt, dtype=float)
+    given = np.where((gen_alt >= 0) & (gen_alt <= 20), 30.0, 6.0)  # in-range exactly where the generated altitudes are out of range, and vice versa
+    v6 = {"beta": b6, "alt": given, "E": 10 ** rng.uniform(-1, 1, 4), "lat": rng.uniform(-1, 1, 4), "lon": rng.uniform(-3, 3, 4)}
+    v6["dph"], v6["th"] = kernel_fn(v6["beta"], v6["alt"], v6["E"], v6["lat"], v6["lon"])
+    stub6 = KernelStub(v6)
+    eas6.CphotAng = stub6
+    n += 4
+    try:
+        with np.errstate(all="ignore"):
+            pe6, cth6 = eas6(b6.copy(), given.copy(), v6["E"].copy(), v6["lat"].copy(), v6["lon"].copy())
+        inr6 = (given >= 0) & (given <= 20)
+        sim6 = np.asarray(stub6.calls[0][1]) if stub6.calls else np.array([])
+        ok6 = np.array_equal(sim6, given[inr6]) and np.all(np.asarray(pe6, dtype=float)[~inr6] == 0) and np.all(np.asarray(pe6, dtype=float)[inr6] > 0)
+        obs6 = {"simulated altitudes": sim6.tolist(), "numPEs": np.asarray(pe6, dtype=float).tolist()}
+    except Exception as ex:
+        ok6, obs6 = False, "raised %r" % ex
+    if not ok6:
+        fails.append({"obligation": "bounded.objects", "clause": "exactly the events whose GIVEN decay altitude lies in [0, 20] km are simulated, also on an object that generated other altitudes before (altDec) for a batch of the same length",
+                      "input": {"history": "eas.altDec(...) -> altitudes A; eas(beta, B, ...) with B in range exactly where A is not", "altitudes generated by altDec": gen_alt.tolist(), "altitudes given to the call": given.tolist()}, "observed": obs6})
     # (d) integer-typed decay altitudes give what the same altitudes give as doubles
     ialt = np.array([5, 25, 10, -1, 20, 0], dtype=np.int64)
     m3 = len(ialt)
